@@ -20,6 +20,8 @@ def run(ctx):
         ctx.tlc_mc(fam, "KeyLock_IndRef", "KeyLock_IndRef_any.cfg", workers=4,
                    label="refinement KeyLock -> KeyLock_Ind, policy Any")
         ctx.apalache_ind(fam, "KeyLock_Ind", cinit="CInit", timeout=3000,
+                         # the step run assumes IndInv at state 0 (IndInit): re-proving it there is waste
+                         extra=["--tuning-options=search.invariantFilter=1->.*"],
                          label="KeyLock_Ind: IndInv inductive; any number of calls, 3 procs, 2 keys, GoRW")
         ctx.apalache_ind(fam, "KeyLock_Ind", cinit="CInitDev", timeout=3000, expect_violation=True,
                          label="KeyLock_Ind witness: not inductive when freeing ignores writers")
